@@ -385,4 +385,80 @@ theorem openFrontierNode_coh {S : Schema} (hts : TextStableP S) (D g : Nat) (bas
       intro F hF
       exact Coh_base_open hts D g base (0 + pre.length) top0 q0 q' ty a F hF hq hm (by omega))
 
+/-! ### opening a wrapper chain -/
+
+theorem openMany_coh {S : Schema} (hts : TextStableP S) (D g : Nat) (base : List FItem) : ∀ (ws : List TypeId)
+    (pre : List FItem) (top : FItem) (placed : List Node) (q : Nat), top.st = some q →
+    ChainFrom S (S.dfa top.ty) q ws → g < pre.length + 1 → ∀ (r : List FItem × List Node),
+    openMany S ws (pre ++ [top]) placed = .ok r → Coh S D g base 0 (pre ++ [top]) placed →
+    Coh S D g base 0 r.1 r.2
+  | [], pre, top, placed, q, _, _, _, r, h, hc => by
+    have := pure_ok h
+    subst this; exact hc
+  | w :: ws, pre, top, placed, q, hq, ⟨hc1, hc2, hc3⟩, hg, r, h, hc => by
+    unfold openMany at h
+    obtain ⟨x, hx, h⟩ := FM.bind_ok h
+    obtain ⟨q', hq'⟩ := Option.isSome_iff_exists.1 hc2
+    have hleaf : (S.nodeType w).isLeaf = false := by
+      simp only [Schema.wrappable, Bool.and_eq_true, Bool.not_eq_eq_eq_not, Bool.not_true] at hc1
+      exact hc1.1
+    obtain ⟨e1, e2⟩ := openFrontierNode_coh hts D g base pre top placed w q q' hq hq' hleaf hg x hx hc
+    have e1' : x.1 = (pre ++ [⟨top.ty, some q'⟩]) ++ [⟨w, some 0⟩] := by rw [e1]; simp
+    obtain ⟨x1, x2⟩ := x
+    simp only at h e1' e2
+    subst e1'
+    exact openMany_coh hts D g base ws (pre ++ [⟨top.ty, some q'⟩]) ⟨w, some 0⟩ x2 0 rfl hc3
+      (by simp; omega) r h e2
+
+/-! ### the take loop's automaton-state bookkeeping -/
+
+theorem tyOf_withKids (S : Schema) (n : Node) (k : List Node) : S.tyOf (n.withKids k) = S.tyOf n := by
+  cases n <;> rfl
+
+theorem tyOf_withMarks (S : Schema) (n : Node) (m : Marks) : S.tyOf (n.withMarks m) = S.tyOf n := by
+  cases n <;> rfl
+
+theorem closeNodeStart_tyOf (S : Schema) : ∀ (os : Nat) (node : Node) (oe : Int) (r : Node),
+    closeNodeStart S os node oe = .ok r → S.tyOf r = S.tyOf node
+  | 0, node, oe, r, h => by
+    have := pure_ok h
+    subst this; rfl
+  | os + 1, node, oe, r, h => by
+    unfold closeNodeStart at h
+    obtain ⟨frag, _, h⟩ := FM.bind_ok h
+    obtain ⟨fill, _, h⟩ := FM.bind_ok h
+    obtain ⟨fill', _, h⟩ := FM.bind_ok h
+    obtain ⟨tail, _, h⟩ := FM.bind_ok h
+    have := pure_ok h
+    subst this
+    exact tyOf_withKids S node _
+
+/-- the match the take loop returns is the state after the nodes it added (a skipped node does not
+    advance it) -/
+theorem takeLoop_run (S : Schema) (d : Dfa) (fty : TypeId) (os : Nat) (oec : Int) (total : Nat) :
+    ∀ (rest : List Node) (taken q : Nat) (add : List Node) (tk : Nat × Nat × List Node),
+    takeLoop S d fty os oec total rest taken q add = .ok tk →
+    ∃ added, tk.2.2 = add ++ added ∧ d.run q (S.types added) = some tk.2.1
+  | [], taken, q, add, tk, h => by
+    have := pure_ok h
+    subst this
+    exact ⟨[], by simp, rfl⟩
+  | next :: rest', taken, q, add, tk, h => by
+    unfold takeLoop at h
+    split at h
+    · have := pure_ok h
+      subst this
+      exact ⟨[], by simp, rfl⟩
+    · rename_i q' hm
+      simp only at h
+      split at h
+      · obtain ⟨n, hn, h⟩ := FM.bind_ok h
+        obtain ⟨added, e1, e2⟩ := takeLoop_run S d fty os oec total rest' _ q' _ tk h
+        refine ⟨n :: added, by rw [e1]; simp, ?_⟩
+        have hty : S.tyOf n = S.tyOf next := by
+          rw [closeNodeStart_tyOf S _ _ _ n hn, tyOf_withMarks]
+        simp only [Schema.types, List.map_cons, hty, Dfa.run, hm]
+        exact e2
+      · exact takeLoop_run S d fty os oec total rest' _ q _ tk h
+
 end PM
